@@ -33,12 +33,57 @@ theorem reader_woken (plan : List (List Rec)) (sched : List Nat)
     readerEnabled (run (init plan) sched) = true :=
   ProofsFd.reader_woken plan sched hc hr
 
-/-- a failure at any kernel call of the constructor leaves no descriptor open -/
+/-- a failure at any kernel call of the constructor - `inotify_init`, the `pipe()` of the wake-up channel, any of the
+    `inotify_add_watch` calls - leaves no descriptor open: what had been opened is exactly what the failing step closes -/
 theorem ctor_failure_releases (n k : Nat) (h : (ctor n (some k)).2 = true) : (ctor n (some k)).1 = 0 := by
-  unfold ctor at *
-  cases k with
-  | zero => rfl
-  | succ k => simp only at h ⊢; split at h <;> simp_all
+  have tail : ∀ (m pos : Nat), (ctorRun (List.replicate m CCall.addWatch) pos (some k) 3).2 = true →
+      (ctorRun (List.replicate m CCall.addWatch) pos (some k) 3).1 = 0 := by
+    intro m
+    induction m with
+    | zero => intro pos h; simp [ctorRun] at h
+    | succ m ih =>
+      intro pos h
+      simp only [List.replicate_succ, ctorRun] at h ⊢
+      split
+      · rfl
+      · next hne => simp only [hne, if_false] at h; exact ih _ h
+  unfold ctor ctorCalls at *
+  simp only [List.cons_append, List.nil_append, ctorRun] at h ⊢
+  split
+  · rfl
+  · next h0 =>
+    simp only [h0, if_false] at h
+    split
+    · rfl
+    · next h1 => simp only [h1, if_false] at h; exact tail n 2 h
+
+/-- the constructor raises exactly when one of its calls fails -/
+theorem ctor_raises_iff (n k : Nat) : (ctor n (some k)).2 = true ↔ k < n + 2 := by
+  have tail : ∀ (m pos o : Nat), (ctorRun (List.replicate m CCall.addWatch) pos (some k) o).2 = true ↔ (pos ≤ k ∧ k < pos + m) := by
+    intro m
+    induction m with
+    | zero => intro pos o; simp [ctorRun]
+    | succ m ih =>
+      intro pos o
+      simp only [List.replicate_succ, ctorRun]
+      split
+      · next h => simp at h; subst h; simp
+      · next h =>
+        rw [ih]
+        have : k ≠ pos := fun e => h (by rw [e])
+        omega
+  unfold ctor ctorCalls
+  simp only [List.cons_append, List.nil_append, ctorRun]
+  split
+  · next h => simp at h; subst h; simp
+  · next h0 =>
+    split
+    · next h => simp at h; subst h; simp
+    · next h1 =>
+      rw [tail]
+      have a : k ≠ 0 := fun e => h0 (by rw [e])
+      have b : k ≠ 1 := fun e => h1 (by rw [e])
+      omega
 
 /-- non-vacuity: close() lands while the reader sits in poll(); the reader wakes, closes all three -/
 example :
